@@ -1337,3 +1337,11 @@ Qed.
 
 Lemma cs_exists_true_only_on_found : forall r, cs_exists_reply r = Some true -> r = RFound.
 Proof. intros [|code|]; simpl; try discriminate; [reflexivity|]. destruct (Nat.eqb code 404); discriminate. Qed.
+
+(* ------------------------------------------------------------------ paging *)
+Lemma consume_pages_all : forall conv pages rows, concat pages = rows ->
+  consume_pages conv pages = produce conv (Some rows).
+Proof.
+  intros conv pages rows H. subst rows. unfold consume_pages, produce. f_equal.
+  induction pages as [|p pages IH]; simpl; [reflexivity|]. rewrite map_app, IH. reflexivity.
+Qed.
